@@ -535,6 +535,10 @@ def run(rep):
     # initialised storage of other dtypes (spike records are boolean, counters integer): a resize keeps the dtype
     for storage in ("zeros:int64", "zeros:bool", "zeros:float64", "zeros:float16"):
         jobs.append((temporal_shard, (storage, (2,), 1.0, 1.0, True, dts, durs, depth - 1)))
+    # step times and durations whose ratio is not representable (1.05/0.35 == 3.0000000000000004): the documented size is
+    # ceil(duration/dt) + inclusive evaluated in that order, from the constructor and from every setter alike
+    jobs.append((temporal_shard, ("zeros", (2,), 0.35, 1.05, True, (0.35, 0.7, 0.15), (1.05, 2.1), depth - 1)))
+    jobs.append((temporal_shard, ("zeros", (2,), 0.7, 2.1, False, (0.35, 0.7, 0.95), (1.05, 2.1, 2.85), depth - 1)))
     cdepth = 4 if quick else 5
     for kind in ("shaped", "record", "shaped-none"):
         for strict in (True, False):
